@@ -457,5 +457,200 @@ def _replay_sq(K, d, clause, model, seed, nspecies=None, outfile=False, saveq=Fa
     return {"ran": True, "failed": False, "searched": tried}
 
 
-UNITS = [Method(K) for K in (1, 2, 3, 4, 5)]
+class Dispatch(Unit):
+    """sq.getresults: a system of K distinct types is handled by the K-species method for K = 1..5 and by unary() (total only)
+    for more than five species (callee contracts: each method is replaced by a marker of its name)"""
+    module = MOD
+    qualname = "sq.getresults"
+    prop = "C04"
+    summaries = {f"{MOD}.sq.{m}": (lambda interp, args, kwargs, m=m: "CALLED:" + m) for m in METHODS.values()}
+
+    def cases(self):
+        return [f"K={K}" for K in (1, 2, 3, 4, 5, 6, 9)]
+
+    def setup(self, ctx, case):
+        K = int(case[2:])
+        o = ctx.obj(MOD, "sq", dict(typenumber=A.from_nested(list(range(1, K + 1)), "int")))
+        return [o], {}, {"K": K}
+
+    def clause_names(self, case):
+        return ["dispatch-on-number-of-species"]
+
+    def ensures(self, ctx, case, inp, out):
+        K = inp["K"]
+        yield "dispatch-on-number-of-species", out.value == "CALLED:" + METHODS[K if K <= 5 else 1]
+
+    def replay(self, case, clause, model, seed):
+        K = int(case[2:])
+        return _replay_sq(K if K <= 5 else 1, 3, clause, model, seed, nspecies=K, via_getresults=True)
+
+
+def _cwv_summary(interp, args, kwargs):
+    """callee contract of choosewavevector used by sq.__init__: requires ndim in {2,3}; returns an integer array (Mq, ndim)
+    (its content is specified by the ChooseWaveVector units); the call arguments are recorded for the caller's clause"""
+    from pyvc.state import cur
+    names = ["ndim", "numofq", "onlypositive"]
+    a = dict(zip(names, args))
+    a.update(kwargs)
+    a.setdefault("onlypositive", False)
+    ndim = a["ndim"]
+    cur().require(sv.or_(sv.cmp("==", ndim, 2), sv.cmp("==", ndim, 3)), "call:choosewavevector:pre:ndim")
+    Mq = sv.integer("Mq")
+    cur().assume(sv.cmp(">=", Mq, 0))
+    NQ = z3.Function("NQ", z3.IntSort(), z3.IntSort(), z3.IntSort())
+    cur().trace.append(("call:choosewavevector", a["ndim"], a["numofq"], a["onlypositive"]))
+    return A.new_arr((Mq, int(ndim)), lambda idx: sv.SV(NQ(sv.znum(idx[0]), sv.znum(idx[1]))), "int")
+
+
+class SqInit(Unit):
+    """sq.__init__ establishes the object invariant the methods rely on: q_m = 2 pi n_m / L component-wise (L = box of frame 0,
+    equal in all frames), |q_m|, the integer vectors kept in df_qvector, species ids / counts from np.unique, counts summing to N;
+    without an explicit list the vectors come from choosewavevector(ndim, int(2 qrange / min(2 pi / L)), onlypositive)."""
+    module = MOD
+    qualname = "sq.__init__"
+    prop = "C04"
+    timeout = 20
+    summaries = {f"{WV}.choosewavevector": _cwv_summary}
+
+    def cases(self):
+        return [f"d={d}/{q}" for d in (2, 3) for q in ("explicit-qvector", "default-qvector")]
+
+    def setup(self, ctx, case):
+        d = int(case[2])
+        tr = Traj(ctx, d, same_cell=True, same_types=False)
+        L = [tr.bl(0, c) for c in range(d)]
+        for x in L:
+            ctx.assume(x > 0)
+        snaps = tr.snapshots()
+        o = ctx.obj(MOD, "sq", {})
+        NQ = z3.Function("NQ", z3.IntSort(), z3.IntSort(), z3.IntSort())
+
+        def nq(m, c):
+            return sv.SV(NQ(sv.znum(m), sv.znum(c)))
+        inp = dict(tr=tr, d=d, L=L, nq=nq, self=o, m=ctx.int("m"), k=ctx.int("k"))
+        kwargs = {}
+        if "explicit" in case:
+            M = ctx.int("M")
+            ctx.assume(M >= 0)
+            kwargs["qvector"] = ctx.array_of((M, d), lambda idx: nq(idx[0], idx[1]), "int", name="qvector")
+            inp["M"] = M
+        else:
+            inp["M"] = sv.integer("Mq")
+            qr = ctx.real("qrange")
+            ctx.assume(qr > 0)
+            op = ctx.bool("onlypositive")
+            kwargs["qrange"], kwargs["onlypositive"] = qr, op
+            inp["qrange"], inp["onlypositive"] = qr, op
+        kwargs["outputfile"] = "out.csv"
+        return [o, snaps], kwargs, inp
+
+    def clause_names(self, case):
+        return ["q=2pi n/L", "|q|", "df_qvector=integer-vectors", "N,T", "typecount=species-counts", "attributes"] + \
+            (["default-set=choosewavevector(ndim, int(2 qrange/min(2pi/L)), onlypositive)"] if "default" in case else [])
+
+    def ensures(self, ctx, case, inp, out):
+        from pyvc.interp import Ref
+        from pyvc.pandas_model import df_content
+        o, d, L, nq, m, k, M, tr = inp["self"], inp["d"], inp["L"], inp["nq"], inp["m"], inp["k"], inp["M"], inp["tr"]
+        a = o.content
+        sp = Spec(tr, d, None, L, nq, tr.N, tr.T, None)
+        need = ["snapshots", "outputfile", "saveqvectors", "nsnapshots", "nparticle", "typenumber", "typecount", "qvector", "df_qvector", "qvalue"]
+        ok = all(n in a for n in need) and isinstance(a["qvector"], A.Arr) and isinstance(a["qvalue"], A.Arr) \
+            and isinstance(a["df_qvector"], Ref) and a["df_qvector"].kind == "df" and a["outputfile"] == "out.csv" and a["saveqvectors"] is False
+        yield "attributes", bool(ok)
+        if not ok:
+            return
+        inm = sv.and_(sv.cmp(">=", m, 0), sv.cmp("<", m, M))
+        qv, qn = a["qvector"], a["qvalue"]
+        shape_ok = qv.ndim == 2 and A.dim_eq_syntactic(qv.shape[0], M) and A.dim_eq_syntactic(qv.shape[1], d) and qv.dtype == "float" \
+            and qn.ndim == 1 and A.dim_eq_syntactic(qn.shape[0], M)
+        if shape_ok:
+            yield "q=2pi n/L", sv.implies(inm, sv.and_(*[sv.cmp("==", qv.get((m, c)), sp.qv(m, c)) for c in range(d)])), {"ring_only": True}
+            yield "|q|", sv.implies(inm, sv.cmp("==", qn.get((m,)), sp.qnorm(m))), {"ring_only": True}
+        else:
+            yield "q=2pi n/L", False
+            yield "|q|", False
+        dq = df_content(a["df_qvector"])
+        if dq["order"] == [f"q{c}" for c in range(d)] and A.dim_eq_syntactic(dq["n"], M):
+            yield "df_qvector=integer-vectors", sv.implies(inm, sv.and_(*[sv.cmp("==", dq["cols"][f"q{c}"].get((m,)), nq(m, c)) for c in range(d)])), {"ring_only": True}
+        else:
+            yield "df_qvector=integer-vectors", False
+        yield "N,T", sv.and_(sv.cmp("==", a["nparticle"], tr.N), sv.cmp("==", a["nsnapshots"], tr.T))
+        tn, tc = a["typenumber"], a["typecount"]
+        if isinstance(tn, A.Arr) and isinstance(tc, A.Arr) and tn.ndim == 1 and tc.ndim == 1 and A.dim_eq_syntactic(tn.shape[0], tc.shape[0]):
+            U = tn.shape[0]
+            cnt = Sum(0, tr.N, lambda i: sv.ite(sv.cmp("==", tr.typ(0, i), tn.get((k,))), 1, 0))
+            yield "typecount=species-counts", sv.implies(sv.and_(sv.cmp(">=", k, 0), sv.cmp("<", k, U)), sv.cmp("==", tc.get((k,)), cnt)), {"ring_only": True}
+        else:
+            yield "typecount=species-counts", False
+        if "default" in case:
+            calls = [e for e in out.state.trace if e[0] == "call:choosewavevector"]
+            if len(calls) != 1:
+                yield "default-set=choosewavevector(ndim, int(2 qrange/min(2pi/L)), onlypositive)", False
+            else:
+                _, ndim, numofq, onlypos = calls[0]
+                tp = [sv.div(sv.mul(2, sv.PI), x) for x in L]
+                mn = tp[0]
+                for x in tp[1:]:
+                    mn = sv.minv(mn, x)
+                want = sv.trunc(sv.div(sv.mul(inp["qrange"], 2), mn))
+                same_flag = isinstance(onlypos, sv.SV) and onlypos.t.eq(inp["onlypositive"].t)
+                yield "default-set=choosewavevector(ndim, int(2 qrange/min(2pi/L)), onlypositive)", \
+                    sv.and_(sv.cmp("==", ndim, d), sv.cmp("==", numofq, want), bool(same_flag))
+
+    def replay(self, case, clause, model, seed):
+        import importlib
+
+        import numpy as np
+        S = importlib.import_module(MOD)
+        RUm = importlib.import_module("PyMatterSim.reader.reader_utils")
+        W = importlib.import_module(WV)
+        d = int(case[2])
+        rng = np.random.default_rng(seed + d)
+        for trial in range(8):
+            N = int(rng.integers(2, 12))
+            T = int(rng.integers(1, 4))
+            L = rng.uniform(3.0, 9.0, size=d)
+            K = int(rng.integers(1, 5))
+            types = rng.integers(1, K + 1, size=N)
+            snaps = [RUm.SingleSnapshot(timestep=s, nparticle=N, particle_type=types.copy(), positions=rng.uniform(0, 1, size=(N, d)) * L,
+                                        boxlength=L.copy(), boxbounds=np.column_stack([np.zeros(d), L]), realbounds=np.column_stack([np.zeros(d), L]),
+                                        hmatrix=np.diag(L)) for s in range(T)]
+            SN = RUm.Snapshots(nsnapshots=T, snapshots=snaps)
+            inputs = {"d": d, "N": N, "T": T, "boxlength": L.tolist(), "types": types.tolist()}
+            try:
+                if "explicit" in case:
+                    qint = rng.integers(-4, 5, size=(int(rng.integers(1, 7)), d))
+                    inputs["qvector"] = qint.tolist()
+                    obj = S.sq(SN, qvector=qint, outputfile="out.csv")
+                else:
+                    qr = float(rng.uniform(2.0, 5.0))
+                    op = bool(trial % 2)
+                    inputs.update(qrange=qr, onlypositive=op)
+                    obj = S.sq(SN, qrange=qr, onlypositive=op, outputfile="out.csv")
+                    qint = W.choosewavevector(d, int(qr * 2.0 / (2 * np.pi / L).min()), op)
+            except Exception as e:
+                return {"ran": True, "failed": True, "inputs": inputs, "detail": f"raises {type(e).__name__}: {e}"}
+            want_q = qint.astype(float) * (2 * np.pi / L)[None, :]
+            vals, cnts = [], []
+            for v in sorted(set(types.tolist())):
+                vals.append(v)
+                cnts.append(int((types == v).sum()))
+            bad = None
+            if obj.qvector.shape != want_q.shape or not np.allclose(obj.qvector, want_q, rtol=1e-12):
+                bad = "qvector is not 2 pi n / L component-wise"
+            elif not np.allclose(obj.qvalue, np.sqrt((want_q ** 2).sum(axis=1)), rtol=1e-12):
+                bad = "qvalue is not |q|"
+            elif list(obj.df_qvector.columns) != [f"q{c}" for c in range(d)] or not np.array_equal(np.asarray(obj.df_qvector.values), qint):
+                bad = "df_qvector does not hold the integer wave vectors"
+            elif obj.nparticle != N or obj.nsnapshots != T:
+                bad = "nparticle / nsnapshots"
+            elif list(obj.typenumber) != vals or list(obj.typecount) != cnts:
+                bad = "typenumber / typecount are not the species ids and their counts"
+            if bad:
+                return {"ran": True, "failed": True, "inputs": inputs, "detail": bad}
+        return {"ran": True, "failed": False, "searched": 8}
+
+
+UNITS = [Method(K) for K in (5, 4, 3, 2, 1)] + [Dispatch(), SqInit()]
 MANIFEST = {"text": "", "note": ""}
